@@ -1,1 +1,8 @@
+import Vflow.Props.C01Sflow
+import Vflow.Props.C02Sflow
+import Vflow.Props.C04
+import Vflow.Props.C07
+import Vflow.Props.C11
+import Vflow.Props.C18
 import Vflow.Props.C19
+import Vflow.Props.C20
